@@ -75,7 +75,7 @@ IMPORTS_HOSTILE = [
     "from nonexistent_module_xyz import thing",
     "from . import mod",                     # relative import from a top-level script
     "from .mod import mod_fn",
-    "from .. import something",
+    "from .. import something", "from ...common.auth import check", "from .... import z", "from ..pkg import sub", "from ...pkg.sub import f_sub",
 ]
 
 DECORATORS = [
@@ -101,6 +101,10 @@ DECORATORS_ODD = [
     "@rattr_results(gets={'a' 'b'}, sets=...)", "@rattr_results(calls=[('f', (['a'], {**glob}))])",
     "@rattr_results(calls=[('f()', (['a'], {}))])", "@rattr_results(calls=[('a.b.c', (['*a', '@b'], {}))])",
     "@mod.rattr_results(gets={'a'})", "@rattr_results(gets={'a'})(1)",
+    "@rattr_results(gets={'request.session.current_user_profile.notification_preferences.delivery_channels.fallback '})",
+    "@rattr_results(sets={'" + ".".join(["component_name"] * 24) + "-'})",
+    "@rattr_results(calls=[('helper', (['" + "[].".join(["part"] * 20) + " x'], {}))])",
+    "@rattr_results(gets={'" + ".".join(["valid_part"] * 30) + "'})",
 ]
 
 CLASS_BASES = ["", "(Bare)", "(Enum)", "(enum.Enum)", "(NamedTuple)", "(typing.NamedTuple)", "(Cls, Bare)", "(pkg.sub.SubCls)",
